@@ -94,14 +94,14 @@ class Harness:
         p = os.path.join(self.dir, 'sigcheck.c')
         with open(p, 'w') as f:
             f.write('#include "shim.h"\n#include "%s"\n' % os.path.join(REPO, 'wasi', 'wasi.c'))
-        r = run(['gcc', '-fsyntax-only', '-w'] + WASI_DEFS + inc + [p])
+        r = run(['gcc', '-fsyntax-only', '-w'] + WASI_DEFS + inc + [p], env=dict(os.environ, LC_ALL='C'))
         out = {}
         for m in re.finditer(r"conflicting types for '(wasi_\w+?)__(\w+)'; have '([^']*)'", r.stderr.decode(errors='replace')):
             out.setdefault(m.group(2), {})[m.group(1)] = m.group(3)
         return out
 
     # ------------------------------------------------------------ execution
-    def run_lines(self, mode, lines, timeout=None, env=None):
+    def run_lines(self, mode, lines, timeout=None, env=None, symbolize=False):
         """execute histories (strings) and return one parsed result per history, in order"""
         if not lines:
             return []
@@ -111,8 +111,9 @@ class Harness:
         def work(idx):
             base = scratch('hx')
             e = dict(os.environ)
-            e.update({'HX_BASE': base, 'ASAN_OPTIONS': 'detect_leaks=0:exitcode=99:allocator_may_return_null=1:detect_stack_use_after_return=0',
-                      'UBSAN_OPTIONS': 'print_stacktrace=1:halt_on_error=1'})
+            sym = '1' if symbolize else '0'   # symbolizing costs ~200 ms per report: done once per distinct stack only
+            e.update({'HX_BASE': base, 'ASAN_OPTIONS': 'detect_leaks=0:exitcode=99:allocator_may_return_null=1:quarantine_size_mb=4:symbolize=' + sym,
+                      'UBSAN_OPTIONS': 'print_stacktrace=1:halt_on_error=1:symbolize=' + sym})
             e.update(env or {})
             text = ''.join('%d %s\n' % (i, lines[i]) for i in idx)
             r = subprocess.run([self.exe, mode], input=text.encode(), stdout=subprocess.PIPE, stderr=subprocess.PIPE, env=e,
@@ -161,11 +162,29 @@ def parse_blocks(out, err):
     return res
 
 
-def crash_class(r):
-    """None if the history ran to completion; else (kind, attributed_to_wasi_c, summary)"""
+_symcache = {}
+
+
+def stack_signature(r):
+    """module offsets of the frames of the first stack of an unsymbolized sanitizer report"""
+    text = '\n'.join(r['san'])
+    first = text.split('\n\n')[0]
+    return (re.sub(r'==\d+==', '', first.split('\n')[0] if first else '')[:80],) + tuple(re.findall(r'\(([^()\s]+\+0x[0-9a-f]+)\)', first)[:8])
+
+
+def crash_class(r, harness=None, mode=None, line=None):
+    """None if the history ran to completion; else (kind, attributed_to_wasi_c, function, report text).
+    Reports are produced unsymbolized; the first report with a given stack is re-executed once with symbolization."""
     if r['done'] and r['exit'] == 0:
         return None
     text = '\n'.join(r['san'])
+    if harness is not None and '/wasi.c:' not in text and re.search(r'\+0x[0-9a-f]+\)', text):
+        sig = stack_signature(r)
+        if sig not in _symcache:
+            _symcache[sig] = harness.run_lines(mode, [line], timeout=600, symbolize=True)[0]
+        if crash_class(_symcache[sig]) is None:
+            print('MACHINERY-ERROR: history %r crashed, but not when re-executed with symbolization' % line); sys.exit(2)
+        text = '\n'.join(_symcache[sig]['san'])
     kind = 'exit=%s/sig=%s' % (r['exit'], r['sig'])
     m = re.search(r'ERROR: AddressSanitizer: (?:attempting )?([\w-]+)', text)
     if m:
@@ -187,7 +206,7 @@ def crash_class(r):
 def summary(r):
     """what a re-execution must reproduce exactly"""
     c = crash_class(r)
-    return (tuple((s[0], s[1], s[2]) for s in r['steps']), tuple((x[0], x[1]) for x in r['x']), c[0] if c else None)
+    return (tuple((s[0], s[1], s[2]) for s in r['steps']), tuple((x[0], x[1]) for x in r['x']), c[0] if c else None, stack_signature(r)[1:] if c else None)
 
 
 class Explorer:
@@ -221,14 +240,14 @@ class Explorer:
             print('MACHINERY-ERROR: history %r is not reproducible: first %r, second %r' % (line, summary(r), summary(again)))
             sys.exit(2)
         obj = {'kind': 'history', 'mode': self.mode, 'history': line, 'described': describe(line) if describe else line,
-               'observed': {'steps': r['steps'], 'mismatches': r['x'], 'crash': crash_class(r)},
+               'observed': {'steps': r['steps'], 'mismatches': r['x'], 'crash': crash_class(r, self.h, self.mode, line)},
                'replay_module': self.module, 'how_to_replay': 'bin/check replay <this file>'}
         obj.update(extra or {})
         self.chk.violation(key, obj, what)
 
     def crash(self, line, r, keyprefix, describe=None):
         """child did not finish: sanitizer report in the implementation -> violation; else machinery error"""
-        kind, in_impl, where, text = crash_class(r)
+        kind, in_impl, where, text = crash_class(r, self.h, self.mode, line)
         if kind in ('harness', 'timeout') or not in_impl:
             again = self.h.run_lines(self.mode, [line], timeout=600)[0]
             print('MACHINERY-ERROR: history %r ended with %s outside the implementation (second run: %s)\n%s' % (line, kind, summary(again)[2], text))
@@ -251,7 +270,7 @@ class Explorer:
 def replay_main(path, harness_factory):
     r = json.load(open(path))
     h = harness_factory()
-    res = h.run_lines(r['mode'], [r['history']], timeout=600)[0]
+    res = h.run_lines(r['mode'], [r['history']], timeout=600, symbolize=True)[0]
     print('history:', r.get('described', r['history']))
     for s in res['steps']:
         print('  step %d %s errno=%d %s' % s)
@@ -261,3 +280,41 @@ def replay_main(path, harness_factory):
     if c:
         print('  child ended abnormally: %s in %s\n%s' % (c[0], c[2], c[3]))
     return res
+
+
+def bfs(ex, alphabet, judge, depth, describe, batch=40000, sample_every=1499):
+    """Breadth-first search over histories.  judge(line, result) -> (canonical state or None, info for alphabet());
+    only the first history that reaches a canonical state is extended.  Stops between levels when the deadline expires."""
+    r0 = ex.h.run_lines(ex.mode, [''])[0]
+    st, info = judge('', r0)
+    ex.states.add(st)
+    frontier, done_depth = [('', info)], 0
+    for d in range(1, depth + 1):
+        if ex.expired():
+            ex.chk.cov['exhaustive'] = False
+            break
+        jobs = [(h + ' ' + op).strip() for h, inf in frontier for op in alphabet(inf, d)]
+        nxt, complete = [], True
+        for b in range(0, len(jobs), batch):
+            if ex.expired():
+                complete = False
+                break
+            part = jobs[b:b + batch]
+            for line, r in zip(part, ex.h.run_lines(ex.mode, part)):
+                ex.note(r)
+                st, inf = judge(line, r)
+                if ex.histories % sample_every == 1:
+                    ex.chk.sample({'history': describe(line), 'results': ['%s -> %d %s' % (s[1], s[2], s[3]) for s in r['steps']]})
+                if st is not None and st not in ex.states:
+                    ex.states.add(st)
+                    nxt.append((line, inf))
+        if not complete:
+            ex.chk.cov['exhaustive'] = False
+            ex.chk.cov['partial_depth'] = {'depth': d, 'histories_done': b, 'of': len(jobs)}
+            break
+        done_depth = d
+        ex.chk.cov.setdefault('histories_per_depth', {})[str(d)] = len(jobs)
+        ex.chk.cov.setdefault('new_states_per_depth', {})[str(d)] = len(nxt)
+        frontier = nxt
+        print('depth %d: %d histories, %d new states, %.0fs' % (d, len(jobs), len(nxt), time.time() - ex.chk.t0)); sys.stdout.flush()
+    return done_depth
